@@ -127,7 +127,7 @@ impl Request {
         &mut self,
         bytes: usize,
     ) -> Result<(), Error> {
-        self.total_bytes += bytes;
+        self.total_bytes = self.total_bytes.saturating_add(bytes);
         match self.max_message_size {
             Some(max_message_size) if self.total_bytes > max_message_size => {
                 Err(Error::MessageTooLong)
